@@ -97,6 +97,16 @@ _CORPUS = {
 }
 
 
+# a kill INSIDE the end-of-loop batch (which deletes and re-inserts the task_pool / task_prerequisites tables and updates
+# task_states) after j statements, for a run of j: whatever the statement order, some j falls between the DELETE and
+# the INSERT of task_pool; `a` is running, its `started` report is what the batch records
+_MID = [_L] + _job('1/a', ('started',))
+for _j in (1, 2, 3, 4, 5, 6, 7, 8, 10):
+    _CORPUS[f'mid-batch-{_j}'] = (_AB, _MID + [_kill(0, _j), _poll('1/a', 'started'), _L,
+                                                {'op': 'msg', 'task': '1/a', 'msg': 'succeeded', 'sn': 1}, _L, _L]
+                                   + _job('1/b') + [_L, _L])
+
+
 def n_loops(raw):
     return sum(1 for op in raw.get('ops') or [] if op['op'] == 'loop')
 
@@ -137,6 +147,7 @@ class C20(SchedProp):
     theorems = [
         'CylcModel.C20.commit_all_or_nothing',
         'CylcModel.C20.kill_at_boundary',
+        'CylcModel.C20.batch_atomic_live',
         'CylcModel.C20.dead_commits_nothing',
         'CylcModel.C20.crash_reads_only_database',
         'CylcModel.C20.between_ops_live',
@@ -167,7 +178,10 @@ class C20(SchedProp):
         'agrees with the real Scheduler (killed by fault injection) on every generated run, committed tables included. PROVED for '
         'all instance graphs and op lists: a commit is all-or-nothing and a kill at a boundary / inside the transaction leaves '
         'the database as at the boundary (kill_at_boundary; statement-level kill points reduce to commit boundaries, sqlite '
-        'atomicity assumed, C21); a dead process commits nothing (dead_commits_nothing, through a one-lemma-per-primitive frame '
+        'atomicity assumed, C21 - and its use through the DAO PROBED on every check: translate() kills the real scheduler after 1..8 '
+        'statements of an end-of-loop batch, reads the database file the dead process left (observation key dead_db) and writes '
+        'CrashFlags.batchAtomic, batch_atomic_live; the judge rule judgeAtomic demands the same of every generated kill at a '
+        'first commit boundary, and the model predicts dead_db at every kill point); a dead process commits nothing (dead_commits_nothing, through a one-lemma-per-primitive frame '
         'DStep of how every primitive touches the database part); a restart reads nothing but the committed database '
         '(crash_reads_only_database); between ops the scheduler is alive and no task-pool write is pending (between_ops_live, '
         'inductive over all runs); the restored pool is the pool table JOIN task_states, with status / submit number as recorded, '
@@ -240,6 +254,9 @@ class C20(SchedProp):
                 'op': 'msg', 'task': '1/a', 'msg': 'failed', 'sn': 1, 'sev': 'CRITICAL'}, _kill(2)]),
             # start-up: killed before the first main loop: is the pool in the pool table?
             _case('c20-probe-start', _AB, [{'op': 'crash'}]),
+        ] + [
+            # is a batch of queued operations one transaction?  killed after j statements of the end-of-loop batch
+            _case(f'c20-probe-batch-{j}', _AB, _MID + [_kill(0, j)]) for j in (1, 2, 3, 4, 6, 8)
         ]
         raws = run_retry(probes, 4)
         # (a probe in which the real scheduler raises - start-up hiccups are retried by run_retry - is not an
@@ -255,7 +272,17 @@ class C20(SchedProp):
         at_start = 'error' not in raws[3] and bool(raws[3]['obs'][-1]['pool'])
         if broken:
             at_remove = at_abs = at_sui = at_start = False
-        self.flags = {'remove': at_remove, 'abs': at_abs, 'suicide': at_sui, 'start': at_start}
+        # the database file after a death inside the batch (observation key dead_db) against the rows / pool table
+        # observed before that main loop
+        atomic = True
+        for raw in raws[4:]:
+            if 'error' in raw:
+                continue
+            dd, before = raw['obs'][-1].get('dead_db') or {}, raw['obs'][-2]
+            last_db = [o['db'] for o in raw['obs'][:-1] if o.get('db') is not None][-1]
+            if dd.get('ts') != before['ts'] or dd.get('pool') != last_db:
+                atomic = False
+        self.flags = {'remove': at_remove, 'abs': at_abs, 'suicide': at_sui, 'start': at_start, 'atomic': atomic}
         lb = {True: 'true', False: 'false'}
         return {'CrashFlags.lean': (
             '/- GENERATED by harness/props/c20.py translate() from the live source. Do not edit. -/\n'
@@ -268,6 +295,9 @@ class C20(SchedProp):
             f'def poolAtSuicide : Bool := {lb[at_sui]}\n'
             '/-- ... and the commit at the end of start-up (`Scheduler.configure`) -/\n'
             f'def poolAtStart : Bool := {lb[at_start]}\n'
+            '/-- a scheduler killed inside a batch of queued operations (after 1..8 statements) leaves the database file as it was\n'
+            'before the batch: the batch is one transaction (read off the real file after injected deaths) -/\n'
+            f'def batchAtomic : Bool := {lb[atomic]}\n'
             'end CylcModel.CrashFlags\n')}
 
     def corpus(self):
